@@ -149,12 +149,21 @@ Definition fstep (T : table) (f : fop) (fs : list mstate) : option (list mstate)
   | FStep op a, s :: rest =>
       match step T op a s with (VOk, s') => Some (s' :: rest) | _ => None end
   | FCall op a g1 g2, s :: rest =>
-      match step T op a s, a_other a with
-      | (VOk, s'), Some o =>
-          if (g1 <=? o) && (g2 <=? m_gas s')
-          then Some (mkM (g1 + g2) 0 0 :: mkM (m_gas s' - g2) (m_mem s') (m_last s') :: rest)
-          else None
-      | _, _ => None
+      match lookup T op with
+      | None => None
+      | Some r =>
+        match step T op a s with
+        | (VOk, s') =>
+          match a_other a with
+          | Some o =>
+            (* g1 comes out of gas the row's dynamicGas really charged *)
+            if r_has_dyn r && (g1 <=? o) && (g2 <=? m_gas s')
+            then Some (mkM (g1 + g2) 0 0 :: mkM (m_gas s' - g2) (m_mem s') (m_last s') :: rest)
+            else None
+          | None => None
+          end
+        | _ => None
+        end
       end
   | FRet refund, c :: p :: rest =>
       if refund <=? m_gas c then Some (mkM (m_gas p + refund) (m_mem p) (m_last p) :: rest) else None
